@@ -18,7 +18,7 @@ pub fn def() -> PropDef {
         run_unit,
         replay,
         required_probes: &["Cbrt_RemPos", "Cbrt_RemNeg", "Cbrt_RemZero", "Cbrt_LeadingZeroRemainder", "Cbrt_Inexact", "Cbrt_Exact"],
-        rule: "exhaustive small scope: every |n| in 1..1500, both signs x scales -3..3 x p 1..3 x 7 modes; then seeded decimals of both signs, 1..2000 digits, scales -2000..2000 covering all residues mod 3, with dedicated families: inputs longer than 3(p+5) digits, perfect cubes t^3, perfect cubes +-1 unit in a far-away digit (1..120 places down, one in four anywhere down to the 2000-digit limit), roots with 5000.. (exact tie) / 5000..x / 4999..9x / 99..9 tails after the p-th digit (built by cubing a (p+1..p+40)-digit root and perturbing), all-nines and 10^k; p in 1..150 and 160, weight on 1..5 and 100; 7 modes; cbrt_with_context on x and -x and cbrt() for the default context; oracle = correctly rounded root from a verified integer cube-root bracket with Floor/Ceiling on the signed value, directed-mode inequalities r^3 >= x / r^3 <= x separately, and the mirror identity cbrt(-x, m) = -cbrt(x, mirror(m)) on the crate's own outputs. distinct = distinct (x, p, mode); non-trivial = root not representable in p digits",
+        rule: "exhaustive small scope: every |n| in 1..1500, both signs x scales -3..3 x p 1..3 x 7 modes; then seeded decimals of both signs, 1..2000 digits, scales -2000..2000 covering all residues mod 3, with dedicated families: inputs longer than 3(p+5) digits, perfect cubes t^3, perfect cubes +-1 unit in a far-away digit (1..120 places down, one in four anywhere down to the 2000-digit limit, one in four on or beside the 3(p+5)-th digit; one in three written with 1..4 trailing zeros), roots with 5000.. (exact tie) / 5000..x / 4999..9x / 99..9 tails after the p-th digit (built by cubing a (p+1..p+40)-digit root and perturbing), all-nines and 10^k; p in 1..150 and 160, weight on 1..5 and 100; 7 modes; cbrt_with_context on x and -x and cbrt() for the default context; oracle = correctly rounded root from a verified integer cube-root bracket with Floor/Ceiling on the signed value, directed-mode inequalities r^3 >= x / r^3 <= x separately, and the mirror identity cbrt(-x, m) = -cbrt(x, mirror(m)) on the crate's own outputs. distinct = distinct (x, p, mode); non-trivial = root not representable in p digits",
     }
 }
 
